@@ -611,9 +611,11 @@ def run_check(pid, tier):
             nrace = cfg["race"] if rbin else 0
         shards = run_shards(pid, binary, tier, nsh, to, scratch, test_regex(pid), race_binary=rbin, nrace=nrace)
         res = [(s,) + classify(s) for s in shards]
+        shown = set()
         for s in shards:
             for l in open(os.path.join(s.dir, "out.txt"), errors="replace"):
-                if l.startswith("KNOWN-FINDING:"):
+                if l.startswith("KNOWN-FINDING:") and l.rstrip() not in shown:   # one line per listed finding, not per shard
+                    shown.add(l.rstrip())
                     print(l.rstrip())
         viol = [(s, why) for s, c, why in res if c == "violation"]
         inc = [(s, why) for s, c, why in res if c == "inconclusive"]
